@@ -124,6 +124,10 @@ impl Vm {
       {
         laythe_core::verif::fresh(laythe_core::verif::K_FIBER, new_fiber.to_usize());
         self.verif_fiber_event("launch", new_fiber);
+        self.verif_exc_event(
+          "fsplit",
+          laythe_core::verif::id(laythe_core::verif::K_FIBER, new_fiber.to_usize()) as i64,
+        );
       }
       self.current_fun = current_fun;
       self.load_ip();
@@ -580,11 +584,15 @@ impl Vm {
     let offset = self.ip.offset_from(start) as usize + jump;
     let mut fiber = self.fiber;
     fiber.push_exception_handler(self, offset, slot_depth);
+    #[cfg(feature = "verif")]
+    self.verif_exc_event("hpush", self.fiber.frames().len() as i64);
     ExecutionSignal::Ok
   }}
 
   /// Pop an exception handler off the handler stack
   pub(super) unsafe fn op_pop_handler(&mut self) -> ExecutionSignal {
+    #[cfg(feature = "verif")]
+    self.verif_exc_event("hpop", -1);
     self.fiber.pop_exception_handler();
     ExecutionSignal::Ok
   }
@@ -601,10 +609,14 @@ impl Vm {
 
     if_let_obj!(ObjectKind::Class(error_class) = (error_class) {
       if !error_class.is_subclass(self.builtin.errors.error) {
+        #[cfg(feature = "verif")]
+        self.verif_exc_event("uwhile", -1);
         self.fiber.error_while_handling();
         self.runtime_error_from_str(self.builtin.errors.type_, "Catch block must be blank or a subclass of Error.")
       } else {
 
+        #[cfg(feature = "verif")]
+        self.verif_exc_event("ucheck", error.class().is_subclass(error_class) as i64);
         if !error.class().is_subclass(error_class) {
           self.update_ip(jump as isize);
         }
@@ -614,6 +626,8 @@ impl Vm {
       }
 
     } else {
+      #[cfg(feature = "verif")]
+      self.verif_exc_event("uwhile", -1);
       self.fiber.error_while_handling();
       self.runtime_error_from_str(self.builtin.errors.type_, "Catch block must be blank or a subclass of Error.")
     })
@@ -622,6 +636,8 @@ impl Vm {
   /// Signal to the fiber we have finished unwinding
   pub(super) unsafe fn op_finish_unwind(&mut self) -> ExecutionSignal {
     let backtrace = self.fiber.finish_unwind();
+    #[cfg(feature = "verif")]
+    self.verif_exc_event("ufinish", self.fiber.frames().len() as i64);
 
     match self.fiber.error() {
       Some(mut error) => {
@@ -641,6 +657,8 @@ impl Vm {
 
   /// Pop the current exception handler and continue the unwind
   pub(super) unsafe fn op_continue_unwind(&mut self) -> ExecutionSignal {
+    #[cfg(feature = "verif")]
+    self.verif_exc_event("ucontinue", -1);
     self.fiber.pop_exception_handler();
     ExecutionSignal::RuntimeError
   }
